@@ -274,7 +274,9 @@ def build_menu(d, p, cls, menu):
         if full:
             A(Event('replace', ('1', '00', 1, None, 1), "s.replace('0b1', '0b00', 1, None, 1)", True))
         unl = [('imul2', "s.__imul__(2) is s"), ('imul0', "s.__imul__(0) is s"), ('ilshift1', "s.__ilshift__(1) is s"), ('reverse', "s.reverse()"),
-               ('rol1', "s.rol(1)"), ('set', "s.set(1, 0)"), ('invert', "s.invert()"), ('byteswap', "s.byteswap()"), ('ixor', "s.__ixor__(s) is s")]
+               ('rol1', "s.rol(1)"), ('set', "s.set(1, 0)"), ('invert', "s.invert()"), ('byteswap', "s.byteswap()"), ('ixor', "s.__ixor__(s) is s"),
+               ('ilshiftL', f"s.__ilshift__({L}) is s"), ('ilshiftbig', f"s.__ilshift__({L + 5}) is s"), ('irshift1', "s.__irshift__(1) is s"), ('irshiftL', f"s.__irshift__({L}) is s"),
+               ('ror2', "s.ror(2)"), ('iand', "s.__iand__(s) is s"), ('setall', "s.set(0)")]
         for tag, src in (unl if full else unl[:2]):
             A(Event('unlisted', (tag,), src, True))
         props = [("s.uint = 1", 'uint', 1), ("s.u4 = 3", 'u4', 3), ("s.hex = 'f'", 'hex', 'f'), ("s.bin = '01'", 'bin', '01'), ("s.bytes = b'a'", 'bytes', 'a'),
@@ -367,8 +369,11 @@ def model_step(st, ev, bs):
         alts = {'imul2': lambda: _self(M.imul(d, 2)), 'imul0': lambda: _self(M.imul(d, 0)), 'ilshift1': lambda: _self(M.ishift(d, 1, True)),
                 'reverse': lambda: M.reverse(d, None, None), 'rol1': lambda: M.rotate(d, 1, None, None, True),
                 'set': lambda: M.set_(d, 1, ('int', 0)), 'invert': lambda: M.invert(d, ('none',)),
-                'byteswap': lambda: M.byteswap(d, None, None, None, True), 'ixor': lambda: _self(M.ibool(d, d, '^'))}[tag]()
-        return S.with_pos(alts, d, p, S.rule_unlisted(d, p))
+                'byteswap': lambda: M.byteswap(d, None, None, None, True), 'ixor': lambda: _self(M.ibool(d, d, '^')),
+                'ilshiftL': lambda: _self(M.ishift(d, len(d), True)), 'ilshiftbig': lambda: _self(M.ishift(d, len(d) + 5, True)),
+                'irshift1': lambda: _self(M.ishift(d, 1, False)), 'irshiftL': lambda: _self(M.ishift(d, len(d), False)),
+                'ror2': lambda: M.rotate(d, 2, None, None, False), 'iand': lambda: _self(M.ibool(d, d, '&')), 'setall': lambda: M.set_(d, 0, ('none', None))}[tag]()
+        return S.with_pos(alts, d, p, S.rule_keeps_pos(d, p))
     if op == 'propset':
         return S.with_pos(propset_model(d, a[0], a[1]), d, p, S.rule_unlisted(d, p))
     raise KeyError(op)
